@@ -184,11 +184,46 @@ def build_and_run(job, tier, seed, timeout, deadline):
     if time.time() > deadline:
         job.skipped = True
         return job
+    spec = P.TUS[job.tu]
+    if spec.get("norun"):
+        job.result = {"stats": [], "notes": [], "mxcsr_changes": [], "wall_s": 0}
+        job.run_rc = 0
+        return job
+    if spec.get("link_check"):
+        syms = undefined_symbols(job.build_log)
+        if syms:
+            stats = []
+            for sym in syms:
+                m = re.search(r"Vector(?:_mask)?<([^,>]+), (\d+)u?>", sym)
+                subj = "link"
+                if m:
+                    tmap = {"unsigned char": "8u", "signed char": "8i", "unsigned short": "16u", "short": "16i", "unsigned int": "32u", "int": "32i",
+                            "unsigned long": "64u", "long": "64i", "float": "32f", "double": "64f"}
+                    subj = "vec%sx%s" % (m.group(2), tmap.get(m.group(1), m.group(1)))
+                fn = sym.split("(")[0]
+                stats.append({"subject": subj, "op": "undefined_reference:" + fn, "domain": "link of the generic API program", "evals": 1, "distinct": 1,
+                              "nontrivial": 1, "fails": 1, "fp": hashlib.sha1(sym.encode()).hexdigest()[:16], "digest": "0", "signal": 0,
+                              "witnesses": [{"undefined_reference": sym}], "samples": [{"symbol": sym}]})
+            job.result = {"stats": stats, "notes": [], "mxcsr_changes": [], "wall_s": 0}
+            job.run_rc = 0
+            return job
     run_job(job, tier, seed, timeout)
     if job.run_rc == -999:
         # re-run alone with 4x the limit before calling it a hang
         run_job(job, tier, seed, 4 * timeout)
     return job
+
+
+def undefined_symbols(logpath):
+    try:
+        txt = open(logpath, errors="replace").read()
+    except Exception:
+        return []
+    out = []
+    for m in re.finditer(r"undefined reference to `([^']+)'", txt):
+        if m.group(1).startswith("avel::") and m.group(1) not in out:
+            out.append(m.group(1))
+    return out
 
 
 def first_error_line(logpath):
@@ -197,7 +232,7 @@ def first_error_line(logpath):
     except Exception:
         return "no build log"
     for line in txt.splitlines():
-        if " error" in line or "undefined reference" in line:
+        if " error" in line or "undefined reference" in line or "static assertion failed" in line or "static_assert failed" in line:
             line = re.sub(r"/[\w/.+-]*/", "", line)
             line = re.sub(r":\d+:\d+:", ":", line)
             line = re.sub(r":\d+:", ":", line)
@@ -319,7 +354,9 @@ def run_check(pid, tier):
     os.makedirs(os.path.join(VERIF, "evidence"), exist_ok=True)
 
     if "custom" in spec:
-        return spec["custom"](pid, tier, seed, deadline)
+        import importlib
+        mod = importlib.import_module(spec["custom"])
+        return mod.run(sys.modules[__name__], pid, tier, seed, deadline, t_start)
 
     cfgs = spec["configs"](tier)
     builds = []
@@ -490,6 +527,12 @@ def finish(pid, tier, seed, jobs, classes_info, t_start, deadline, extra_cov=Non
                 prop, f["subject"], f["op"], f["count"], f["fp"], len(fs), ",".join(x["job"].cfg.name for x in fs[:3]), json.dumps(w)[:200]))
 
     exhaustive = skipped == 0
+    if extra_cov and extra_cov.get("states_override"):
+        stats_total["distinct"] = max(stats_total["distinct"], extra_cov["states_override"])
+        stats_total["evals"] = max(stats_total["evals"], extra_cov["states_override"])
+        stats_total["nontrivial"] = max(stats_total["nontrivial"], extra_cov["states_override"])
+        if not samples:
+            samples.append({"configuration": jobs[0].cfg.name, "command": " ".join(jobs[0].compile_cmd("OUT"))[:600]})
     cov = {
         "states": stats_total["distinct"],
         "transitions": stats_total["evals"],
